@@ -695,8 +695,36 @@ func (i *Interpreter) executeIndexAssign(stmt IndexAssignStatement, env *Environ
 	return i.assignToTarget(stmt.Target, value, env)
 }
 
+// moduleLevelRoot reports the variable at the root of an expression such as
+// `cfg`, `cfg.limits` or `cfg.limits["a"]` when that variable is bound in the
+// module-level scope and the code runs below it. The value such an expression
+// denotes is shared by every request, so it must not be written in place.
+func (i *Interpreter) moduleLevelRoot(expr Expr, env *Environment) (string, bool) {
+	for {
+		switch e := expr.(type) {
+		case ArrayIndexExpr:
+			expr = e.Array
+		case *ArrayIndexExpr:
+			expr = e.Array
+		case FieldAccessExpr:
+			expr = e.Object
+		case *FieldAccessExpr:
+			expr = e.Object
+		case VariableExpr:
+			return e.Name, env != i.globalEnv && env.Has(e.Name) && !env.HasBelow(e.Name, i.globalEnv)
+		case *VariableExpr:
+			return e.Name, env != i.globalEnv && env.Has(e.Name) && !env.HasBelow(e.Name, i.globalEnv)
+		default:
+			return "", false
+		}
+	}
+}
+
 // assignToTarget recursively resolves the l-value target and performs the mutation
 func (i *Interpreter) assignToTarget(target Expr, value interface{}, env *Environment) (interface{}, error) {
+	if name, shared := i.moduleLevelRoot(target, env); shared {
+		return nil, fmt.Errorf("cannot assign into module-level '%s'", name)
+	}
 	switch t := target.(type) {
 	case ArrayIndexExpr:
 		container, err := i.EvaluateExpression(t.Array, env)
